@@ -21,7 +21,7 @@ func vpGossipParams() GossipSubParams {
 	p.MaxIDontWantLength = 3
 	p.IDontWantMessageTTL = 2
 	p.IDontWantMessageThreshold = 2
-	p.IWantFollowupTime = 3 * time.Second
+	p.IWantFollowupTime = 5 * time.Second // (not the package default, so that a read of the global instead of the configured value shows)
 	return p
 }
 
@@ -378,7 +378,7 @@ func vpH_C17_promise_penalty() {
 	gs.gossipTracer.AddPromise(w.peers[0], []string{"A2"})
 	arrived := vpBool("first_message_arrived")
 	dt := vpInt("dt", 0, 2)
-	vpAdvance([]time.Duration{time.Second, 3 * time.Second, 3*time.Second + 1}[dt])
+	vpAdvance([]time.Duration{time.Second, 5 * time.Second, 5*time.Second + 1}[dt])
 	if arrived {
 		gs.gossipTracer.ValidateMessage(vpMkMsg("A", "1", vpT0))
 	}
@@ -436,3 +436,7 @@ func vpH_C17_windows() {
 	}
 	vpCover(true, "ran")
 }
+
+// emit: the recipient rule of IHAVE gossip (shared with C09_emit): only non-mesh, non-direct, mesh-capable topic peers at
+// or above the GOSSIP threshold, at most MaxIHaveLength IDs per advertisement.
+func vpH_C17_emit() { vpH_C09_emit() }
